@@ -15,7 +15,13 @@ Streams
   call             Function.Exec(nil, args) of the user method, 显示, 取随机数 and every registered library function
                    (file functions only see paths inside a private temporary directory)
   misc             String(), DuplicateValue, CompareValues with the three verbs (and an unknown one)
-  varinput         ExecVarInputText / ExecExpressionInputText: valid assignments, undefined names, 其, calls, garbage
+  varinput         ExecVarInputText / ExecExpressionInputText: valid assignments, undefined names, 其, calls, garbage, texts whose tree
+                   fails each of the tree checks; Go = model (Model/VarInput.lean: parser model + evaluator model in an empty VM);
+                   varinput:trace the same with the display trace and ExecExpressionInputText on several entries (one shared VM);
+                   varinput:tree the model's tree-level entry points on the tree the REAL parser built
+  httpval          Construct of HTTP请求 / HTTP响应 (pkg/common) with every argument tuple of arity ≤ 2 over the pool, a third / fourth
+                   argument behind well-typed pairs, then EVERY property of the object and the arguments afterwards: Go = model
+                   (Model/HttpValues.lean; the member sweep above also compares objects and classes of the two with the model)
   loop-self        every list / dictionary method (complete tables) applied inside a 遍历 loop to the collection being traversed:
                    receivers of 0–4 items × argument forms (loop variables, constants, the collection itself) × loop forms
   programs         ill-typed generated PROGRAMS through `run`: every step (random member / method / operator / index /
@@ -44,8 +50,8 @@ ASSUMPTIONS = [
     "the predefined 数值 is one process-wide object (mutable: C16): its cases are compared with the model on the outcome class only",
 ]
 PARTIAL = ("file and network primitives are OS calls (error paths sampled, not proved); Go stack exhaustion by unbounded recursion of "
-           "user methods is outside the quantifier; library functions and the HTTP classes are swept on the real code but have "
-           "no Lean model; the text methods are modelled inside TextFragment (partlyModelledMembers: case mapping of non-English cased letters "
+           "user methods is outside the quantifier; library functions are swept on the real code but have "
+           "no Lean model (the HTTP value classes and the input-variable texts are modelled: Model/HttpValues.lean, Model/VarInput.lean); the text methods are modelled inside TextFragment (partlyModelledMembers: case mapping of non-English cased letters "
            "and the special spellings / possible overflow of strconv.ParseFloat answer notModelled and are swept on the real code only)")
 
 F = {  # float64 bit patterns
@@ -195,6 +201,11 @@ def judge(ctx, stream, cases, compare_model=True):
             else:
                 ctx.count(stream + ':modelled')
                 same = (g == m)
+                if not same and ('reqcls' in c or 'respcls' in c):
+                    # the JSON exception of the HTTP constructors quotes encoding/json's own words: message text is never compared
+                    import re
+                    nx = lambda x: re.sub(r'err sigexc exc:[0-9a-f-]+', 'err sigexc', x)
+                    same = nx(g) == nx(m)
                 if not same and 'predef' in c:
                     same = g.split(' ')[:3] == m.split(' ')[:3] if g.startswith('err') else g.split(' ')[0] == m.split(' ')[0]
                 if not same:
@@ -478,6 +489,151 @@ def varinput_cases(ctx):
         cases.append('value - vi %s' % raw.hex())
         cases.append('value - ei %s' % raw.hex())
     return cases
+
+
+# texts whose tree fails each check of exec_varinput.go (assertASTIsVarAssignBlock / assertASTIsSingleExpr / the target test), and
+# texts that pass them in unusual ways
+VI_SHAPES = [
+    # ExecBlock == nil: nothing but blanks, comments, imports
+    ' ', '\n', '\n\n', '注：x', '注：“x”\n', '导入《@JSON》', '导入《@JSON》\n\n',
+    # a child that is neither an assignment nor an empty statement (first, in the middle, last)
+    '输出 1', '令X = 1', 'X', '1 + 1', '（显示：1）', '如果真：\n    X = 1', '每当假：\n    X = 1', '遍历【1】：\n    X = 1',
+    '定义甲：\n    其a设为1', '如何f？\n    输出 1', '抛出异常：“x”', 'X = 1\n输出 X', 'X = 1\n（显示：X）\nY = 2', '（显示：1）\nX = 1',
+    'X = （显示：1）\n结束循环', '继续循环',
+    # the target is not a plain name: nothing before it is undone (the earlier right-hand sides HAVE run)
+    'X之a = 1', '【1】#1 = 2', '其a = 1', 'X = （显示：1）\nX之a = 2', 'X = （显示：1）\nY = （显示：2）\n【1】#1 = （显示：3）', '以X（f）之a = 1',
+    # empty statements are skipped
+    '；', '；；', 'X = 1；', '；X = 1', 'X = 1；；Y = 2', 'X = 1；\n；Y = X',
+    # the single-expression test counts children: an empty statement is a child too
+    '1；', '；1', '1；2', '1\n2', 'X；Y', '1 + 2；', '（显示：1）；（显示：2）',
+    # an exception handler after the assignments: only the children are looked at, the handler is ignored
+    'X = 1\n拦截异常：\n    输出 1', 'X = 1 / 0\n拦截异常：\n    输出 1', 'X = Y\n拦截异常：\n    输出 1', '1 / 0\n拦截异常：\n    输出 2',
+    # later assignments see nothing of earlier ones (no scope), overwrite earlier ones of the same name
+    'X = 1\nX = 2', 'X = 1\nY = 2\nX = 3', 'X = 1\nY = X', 'X = （显示：1）\nX = （显示：2）', '1 = 2\n1 = 3', 'X = 1\nX = Y',
+    # an assignment as a right-hand side / inside an expression
+    'X = Y = 1', 'X = 【Y = 1】', 'X = （显示：1）得到乙\n乙 = 2', 'X = （显示：1）得到乙\nY = 乙\nZ = （乙）',
+    # a scope appears with the first call: names bound by 得到 live in it from then on
+    'A = （显示：1）得到乙\nB = （显示：2）得到乙', 'A = （显示：1）得到真', 'A = 以1（加：2）得到乙\nB = 乙 + 1', 'A = （显示：乙）得到乙',
+    'A = （未定）\nB = （显示：1）得到乙\nC = 乙', 'A = 以【1】（没有）\nB = 其', 'A = （显示：1）\nB = 其X',
+]
+
+
+def varinput_multi_cases(ctx):
+    """ExecExpressionInputText on several entries: ONE VM for all of them, evaluated in sorted key order"""
+    rng = ctx.rng
+    names = ['甲', '乙', '丙', 'A', 'b', '1', '真']
+    fixed = [
+        [('甲', '（显示：1）得到丙'), ('乙', '丙')], [('乙', '（显示：1）得到丙'), ('甲', '丙')], [('A', '1'), ('b', 'A')],
+        [('甲', '（未定）'), ('乙', '其X')], [('甲', '以【1】（没有）'), ('乙', '（显示：2）得到丙'), ('丙', '丙')], [('甲', '1 / 0'), ('乙', '（显示：1）')],
+        [('乙', '1 / 0'), ('甲', '（显示：1）')], [('甲', 'X = 1'), ('乙', 'X')], [('甲', '（显示：1）得到丙'), ('乙', '（丙）')], [('甲', ''), ('乙', '1')],
+        [('甲', '1；'), ('乙', '1')], [('', '1')], [],
+    ]
+    cases = []
+    for es in fixed:
+        cases.append('vitext ei' + ''.join(' %s %s' % (hx(k), hx(v)) for k, v in es))
+    for _ in range(ctx.n(400, 20000)):
+        ks = rng.sample(names, rng.randint(2, 4))
+        es = [(k, rng.choice(VI_ATOMS) if rng.random() < 0.9 else rng.choice(VI_SHAPES)) for k in ks]
+        cases.append('vitext ei' + ''.join(' %s %s' % (hx(k), hx(v)) for k, v in es))
+    return cases
+
+
+def judge_varinput(ctx):
+    """input-variable texts: Go = model (Model/VarInput.lean: the parser MODEL on the text, the evaluator model in an empty VM),
+    without and with the display trace, one entry and several; and Go = the model run on the tree the REAL parser built"""
+    vi = varinput_cases(ctx)
+    for tx in VI_SHAPES:
+        vi.append('value - vi %s' % hx(tx))
+        vi.append('value - ei %s' % hx(tx))
+    judge(ctx, 'varinput', vi)
+    ctx.streams.append({'stream': 'varinput', 'cases': len(vi)})
+    tr = []
+    for c in vi:
+        f = c.split(' ')
+        tr.append('vitext vi %s' % f[3] if f[2] == 'vi' else 'vitext ei %s %s' % (hx('甲'), f[3]))
+    tr = sorted(set(tr)) + varinput_multi_cases(ctx)
+    judge(ctx, 'varinput:trace', tr)
+    ctx.streams.append({'stream': 'varinput:trace', 'cases': len(tr)})
+    # tree level: the real parser's tree (harness op `ast`) through the model's tree-level entry points
+    texts = []
+    for c in vi:
+        f = c.split(' ')
+        if f[3] == '-':
+            continue
+        try:
+            texts.append((f[2], bytes.fromhex(f[3]).decode('utf-8')))
+        except UnicodeDecodeError:
+            pass
+    texts = sorted(set(texts))
+    asts = go_run(ctx, ['ast ' + cps(tx) for _, tx in texts])
+    lines, goline = [], []
+    for (kind, tx), a in zip(texts, asts):
+        if a.startswith('ok (prog'):
+            lines.append(('viast ' if kind == 'vi' else 'eiast ') + a[3:])
+            goline.append('value - %s %s' % (kind, hx(tx)))
+    go = go_run(ctx, goline)
+    model = ctx.run_lean(lines)
+    for c, ln, g, m in zip(goline, lines, go, model):
+        ctx.evaluations += 1
+        if is_bug_answer(m):
+            raise RuntimeError('driver bug: %s -> %s' % (ln[:200], m))
+        if m == 'unmodelled':
+            ctx.count('varinput:tree:unmodelled')
+        elif g != m and not bad_answer(g):
+            ctx.disagreement('varinput:tree', c, g, m)
+        else:
+            ctx.count('varinput:tree:' + ('ok' if g.startswith('ok') else ' '.join(g.split(' ')[:3])))
+            ctx.nontriv(c)
+    ctx.streams.append({'stream': 'varinput:tree', 'cases': len(lines)})
+
+
+# ---------------------------------------------------------------------------------------------------
+# the value classes of pkg/common: Construct, then every property of the object (harness op `httpval`, Model/HttpValues.lean)
+
+def httpval_cases(ctx):
+    import itertools
+    rng = ctx.rng
+    pool = [p for p in POOL if 'self' not in p]
+    core = [p for p in CORE]
+    cases = []
+    for k in ('req', 'resp'):
+        cases.append('httpval %s' % k)
+        cases += ['httpval %s %s' % (k, a) for a in pool]
+        cases += ['httpval %s %s %s' % (k, a, b) for a, b in itertools.product(pool, pool)]
+        # a third argument behind every well-typed (and one ill-typed) pair of mandatory ones
+        firsts = [(S('GET'), S('/a')), (S(''), S('')), (N('1'), S('/a'))] if k == 'req' else \
+                 [(N('1'), S('ok')), (N('nan'), '[]'), (N('1'), '{61=%s}' % N('inf')), (N('1'), 'null'), (N('1'), 'obj'), (S('a'), S('b'))]
+        for (a, b) in firsts:
+            cases += ['httpval %s %s %s %s' % (k, a, b, c) for c in pool]
+            cases += ['httpval %s %s %s %s %s' % (k, a, b, c, d) for c in core for d in core[:4]]
+        for _ in range(ctx.n(300, 20000)):
+            cases.append('httpval %s %s' % (k, ' '.join(rng.choice(pool) for _ in range(rng.randint(2, 4)))))
+    return cases
+
+
+def judge_httpval(ctx):
+    import re
+    cases = httpval_cases(ctx)
+    go = go_run(ctx, cases)
+    model = ctx.run_lean(cases)
+    # the message of the JSON exception quotes encoding/json's own words: only the class of the error is compared
+    norm = lambda x: re.sub(r'err sigexc exc:[0-9a-f-]+', 'err sigexc', x)
+    for c, g, m in zip(cases, go, model):
+        ctx.evaluations += 1
+        if is_bug_answer(g) or is_bug_answer(m):
+            raise RuntimeError('generator/harness/driver bug: %s -> %s / %s' % (c, g, m))
+        if bad_answer(g):
+            ctx.violation('httpval', c, g, 'a value or a Zn error (never panic / nil / crash / timeout)')
+            continue
+        if m == 'unmodelled':
+            ctx.count('httpval:unmodelled')
+        elif norm(g) != norm(m):
+            ctx.disagreement('httpval', c, g, m)
+        head = norm(g).split(' | ')[0]
+        ctx.count('httpval:' + (' '.join(head.split(' ')[:3]) if head.startswith('err') else 'ok'))
+        if head != 'err rt 82':
+            ctx.nontriv(c)
+    ctx.streams.append({'stream': 'httpval', 'cases': len(cases)})
 
 
 # ---------------------------------------------------------------------------------------------------
@@ -833,9 +989,8 @@ def run_streams(ctx):
             ctx.violation('known', k['witness'], g, 'a value or a Zn error')
     sweep(ctx, t)
     judge_validators(ctx, t)
-    vi = varinput_cases(ctx)
-    judge(ctx, 'varinput', vi, compare_model=False)
-    ctx.streams.append({'stream': 'varinput', 'cases': len(vi)})
+    judge_varinput(ctx)
+    judge_httpval(ctx)
     lc = loop_cases(t)
     judge(ctx, 'loop-self', lc, compare_model=False)
     ctx.streams.append({'stream': 'loop-self', 'cases': len(lc)})
@@ -865,7 +1020,7 @@ def replay(ctx, data):
     p = subprocess.run([fw.B + '/znharness'], input=case + '\n', stdout=subprocess.PIPE, stderr=subprocess.PIPE, text=True, env=env, cwd=tmpdir)
     shutil.rmtree(tmpdir, ignore_errors=True)
     print('go   :', p.stdout.strip() or ('crash exit%d %s' % (p.returncode, p.stderr[-300:].replace('\n', ' | '))))
-    if case.startswith('value '):
+    if case.startswith(('value ', 'vitext ', 'httpval ')):
         print('model:', ctx.run_lean([case])[0])
     else:
         f = case.split(' ')
